@@ -10,21 +10,22 @@ extern "C" void vp_obj_ctor(int kind, void* at, int how);     // how: 0 = user's
 extern "C" void vp_obj_dtor(int kind, void* at);
 extern "C" void vp_join(int left_lo, int left_hi, int right_lo, int right_hi);
 extern "C" void vp_notify_released(void);
+extern "C" void vp_may_throw_ctor(int kind);                    // user constructors may throw here: 0 = Range copy, 1 = Range split, 2 = Body copy (harness: the k-th call does)
 
 namespace {
 // a Range in the sense of the tbb_range concept; every construction/destruction is reported
 struct VRange {
   int b, e;
   VRange(int b_, int e_) : b(b_), e(e_) { vp_obj_ctor(0, this, 0); }
-  VRange(const VRange& r) : b(r.b), e(r.e) { vp_obj_ctor(0, this, 1); }
-  VRange(VRange& r, tbb::split) : b((r.b + r.e) / 2), e(r.e) { r.e = b; vp_obj_ctor(0, this, 2); }
+  VRange(const VRange& r) : b(r.b), e(r.e) { vp_may_throw_ctor(0); vp_obj_ctor(0, this, 1); }
+  VRange(VRange& r, tbb::split) : b((r.b + r.e) / 2), e(r.e) { vp_may_throw_ctor(1); r.e = b; vp_obj_ctor(0, this, 2); }
   ~VRange() { vp_obj_dtor(0, this); }
   bool empty() const { return !(b < e); }
   bool is_divisible() const { return e - b > 1; }
 };
 struct VForBody {
   VForBody() { vp_obj_ctor(1, this, 0); }
-  VForBody(const VForBody&) { vp_obj_ctor(1, this, 1); }
+  VForBody(const VForBody&) { vp_may_throw_ctor(2); vp_obj_ctor(1, this, 1); }
   ~VForBody() { vp_obj_dtor(1, this); }
   void operator()(const VRange& r) const { for (int i = r.b; i < r.e; i++) vp_body(i); }
 };
